@@ -20,3 +20,6 @@ import SpoxModel.Props.C12
 #print axioms C12.cache_stale_counterexample
 #print axioms C12.key_has_results_and_arguments
 #print axioms C12.no_class_level_mutable_state
+#print axioms C12.no_memoising_decorators
+#print axioms C12.no_module_level_caches
+#print axioms C12.dict_backdoor_unused
